@@ -86,6 +86,31 @@ def parseCancel (s : String) : Option CancelAct :=
 def parseKind (s : String) : Option Bool :=
   if s = "ex" then some false else if s = "pr" then some true else none
 
+/-- init method word: (dynamic, producer) -/
+def parseInitKind (s : String) : Option (Bool × Bool) :=
+  if s = "ex" then some (false, false) else if s = "pr" then some (false, true)
+  else if s = "dx" then some (true, false) else if s = "dp" then some (true, true) else none
+
+/-- `h<n>` header word -/
+def parseHeaderWord (s : String) : Option Nat :=
+  match s.toList with
+  | 'h' :: r => match (String.ofList r).toNat? with
+    | some n => if n > 0 then some n else none
+    | none => none
+  | _ => none
+
+/-- continuation route word: (dynamic, kind); for the dynamic method the kind is whatever the
+presented cursor's state is (`streamStateFits(MethodDynamic, _)` accepts both) -/
+def routeOf (w : World) (md : Meta) (s : String) : Option (Bool × Bool) :=
+  if s = "ex" then some (false, false) else if s = "pr" then some (false, true)
+  else if s = "dyn" then
+    some (true, match getFirst keyState md with
+      | some tv => match openCursor w tv with
+        | some cur => cur.st.producer
+        | none => false
+      | none => false)
+  else none
+
 /-- a symbolic reference to a token that was never handed out stands for a literal that cannot
 open (the harness substitutes the same literal) -/
 def neverMinted (sym : String) : Val := .lit (bytesOfString ("never-minted-" ++ sym))
@@ -172,7 +197,7 @@ def showEvent (withSeen : Bool) : Event → String
   | .cancel => "K"
 
 def showResp (w : World) (r : Resp) (evs : List Event) (withSeen : Bool) : String :=
-  toString r.status ++ (if r.rpcErr then "E" else "") ++ " " ++ showList (r.batches.map (showBatch w)) ++
+  toString r.status ++ (if r.rpcErr then "E" else "") ++ " " ++ showList ((r.header ++ r.batches).map (showBatch w)) ++
     " | " ++ showList (evs.map (showEvent withSeen))
 
 def schemaOk? (s : String) : Option Bool :=
